@@ -7,6 +7,9 @@ CLAIMS = {
  "C01": dict(
     text="Proof (Verus, unbounded) of the per-call contracts that carry 'every hunk line once, in order, intact, not moved past a header': handle_hunk_line extends the ghost sequence all_lines = rendered ++ pending by exactly one entry (the prepared line of the new state's marker width) and never reorders it; paint_buffered/emit/prepare/emit_line_unchanged and every file-header handler preserve all_lines; the output buffer is empty at every direct write (OD); detect_source's table. Per-call invariants quantify over all inputs and histories, which tests cannot.",
     note=_COMMON_NOTE + " Not decided: ansi_term/syntect string assembly inside paint_lines, the side-by-side path, what the regexes accept."),
+ "C02": dict(
+    text="Proof (Verus) of the handler-level facts that make --color-only line-for-line: hunk lines are added to the rendered sequence exactly once and in order; under color_only should_skip_line is false, the mode-line handler captures nothing and declines, the submodule-short handler declines, header writers emit exactly one record (no blank line, `omit` ignored), the commit line is kept, and painted hunk lines are flushed before a following header.",
+    note=_COMMON_NOTE + " The whole-run count (one output line per input line) is not proved as a loop invariant of consume; text preservation relies on the raw-style presets (a constant table). Known finding (open): a hunk header that is not followed by a hunk line is never emitted."),
  "C03": dict(
     text="Proof (Verus) of the safety obligations the verifier generates for every extracted function of every unit - no arithmetic overflow/underflow, no division by zero, indices and slices in bounds, unwrap only on Some/Ok, panic!/unreachable!/delta_unreachable sites unreachable, termination where a decreases clause is given - plus the named crash-corner contracts (hunk-header coordinates non-empty, get_style defined, n_parents known).",
     note=_COMMON_NOTE + " Covers only the functions listed in the evidence (functions_under_contract); panics in unextracted code and in dependencies, allocation size and main.rs are not decided. Preconditions tagged *.assumed (srcinv, sm_wf) are state-machine invariants assumed at handler entry."),
@@ -50,7 +53,7 @@ CLAIMS = {
     note=_COMMON_NOTE + " Exact header counts over whole histories and box drawing are not decided."),
 }
 _NOT_YET = "check not built yet in this session (planned, see DESIGN.md section 4)"
-NA = {p: _NOT_YET for p in ["C02","C06","C07","C12","C13"]}
+NA = {p: _NOT_YET for p in ["C06","C07","C12","C13"]}
 NA["C18"] = "quantifies over OS-level fault sequences, child exit statuses and pager selection (run_app / OutputType::try_pager: Command::spawn, wait, process::exit); neither installed deductive verifier has a model of these and no function with a meaningful contract can be separated without refactoring unguarded source (DESIGN.md section 5)"
 for _p in CLAIMS:
     CLAIMS[_p].setdefault("technique", _V)
